@@ -241,3 +241,50 @@ Proof.
         -- destruct (try_delete_nodes (x_env x) (Some g1) (reap_candidates _ _ _ _ _)) as [[rcalls rerr] a2] eqn:Er.
            destruct rerr as [[|]|]; simpl; rewrite <- (app_nil_r rcalls); eapply Hreap; eauto.
 Qed.
+
+(* ---------- C05 state anchor: what a scan leaves in the node-size cache ---------- *)
+Lemma scale_up_cache e o mx dry st a tainted want : g_cache (up_state (scale_up e o mx dry st a tainted want)) = g_cache st.
+Proof.
+  unfold scale_up. destruct (match tainted with [] => _ | _ => _ end) as [[ucalls ucount] tr].
+  destruct (0 <? want - ucount); [|reflexivity]. destruct a as [g|]; [|reflexivity].
+  destruct (nodes_to_add _ _ _ <=? 0); [reflexivity|]. destruct dry; [reflexivity|].
+  destruct (aws_increase g _ (e_aorc e)) as [[ac r] g']. destruct r; reflexivity.
+Qed.
+
+Lemma scale_down_taint_cache e o mn dry st unt want : g_cache (snd (scale_down_taint e o mn dry st unt want)) = g_cache st.
+Proof.
+  unfold scale_down_taint. destruct (_ <? 0); [reflexivity|]. destruct (taint_loop _ _ _ _ _ _ _) as [[kc cnt] tr]. reflexivity.
+Qed.
+
+Lemma scan_act_cache e o mn mx dry st2 a pods unt tainted forced lag tg us cap d0 fz :
+  g_cache (r_state (scan_act e o mn mx dry st2 a pods unt tainted forced lag tg us cap d0 fz)) = g_cache st2.
+Proof.
+  unfold scan_act. destruct (try_delete_nodes e a (force_candidates dry pods forced)) as [[fcalls ferr] a1].
+  match goal with |- context [if ?d <? 0 then _ else _] => set (d2 := d) end.
+  destruct (d2 <? 0).
+  - destruct (try_delete_nodes e a1 (reap_candidates e o dry pods tainted)) as [[rcalls rerr] a2].
+    pose proof (scale_down_taint_cache e o mn dry st2 unt (- d2)) as Ht.
+    destruct (scale_down_taint e o mn dry st2 unt (- d2)) as [[tcalls terr] st3]. simpl in Ht.
+    destruct rerr as [[|]|]; simpl; auto.
+  - destruct (0 <? d2).
+    + pose proof (scale_up_cache e o mx dry st2 a1 tainted d2) as Hu. destruct (up_out _); simpl; exact Hu.
+    + destruct (try_delete_nodes e a1 (reap_candidates e o dry pods tainted)) as [[rcalls rerr] a2]. destruct rerr as [[|]|]; reflexivity.
+Qed.
+
+Theorem group_cache_C05 now gdry api g a nodes pods :
+  let x := ctx_of now gdry api g a nodes pods in
+  check_C05_cache x (gi_state g) (r_state (scan_of now gdry api g a nodes pods)) = true.
+Proof.
+  intros x.
+  assert (Hgoal : g_cache (r_state (scan_of now gdry api g a nodes pods)) = g_cache (x_st x)).
+  { unfold scan_of. fold x. unfold scan_group.
+    change (e_dry (x_env x) || o_dry (x_opts x)) with (x_dry x).
+    change (match group_nodes (x_opts x) nodes with n :: _ => with_cache (gi_state g) (first_alloc n) | [] => gi_state g end) with (x_st x).
+    apply (match_both_empty _ _ _ _ (fun r => g_cache (r_state r) = g_cache (x_st x))); [reflexivity|].
+    destruct (_ <? x_min x); [reflexivity|]. destruct (x_max x <? _); [reflexivity|].
+    destruct (negb _ && _); [simpl; rewrite scale_up_cache; reflexivity|].
+    destruct (calc_percent _ _ _ _ _); [|reflexivity]. destruct (fst _); [reflexivity|].
+    destruct (decide _ _ _ _ _ _ _); [rewrite scan_act_cache; reflexivity | reflexivity]. }
+  unfold check_C05_cache. rewrite Hgoal. unfold x, ctx_of. simpl.
+  destruct (group_nodes (gi_opts g) nodes); simpl; unfold pair_eqb; rewrite !Z.eqb_refl; reflexivity.
+Qed.
